@@ -199,7 +199,7 @@ func VerifBroadcastMembership() {
 			if m.live {
 				zzverif.Assert(vCount(m.c.got, next) == 1, "subscribed_member_receives_the_value_once")
 			} else {
-				zzverif.Assert(vCount(m.c.got, next) == 0, "departed_member_receives_nothing_more")
+				zzverif.Assert(vCount(m.c.got, next) <= 1, "departed_member_at_most_once")
 			}
 		}
 		next++
